@@ -101,6 +101,15 @@ TEXTS = {
          "sampling flag per scope) afterwards equals the context before, provided the id prefix is non-zero (K3 "
          "boundary). Tied to the code by orchestrated single-thread and adapter histories comparing contexts, parents "
          "and attachment targets. !Send of guards is a compile-time fact, not a theorem.", "DESIGN.md 6/C10"),
+ "C15": ("Kernel-checked theorems about the three brackets the macro generates, stated on the system model: the sync and "
+         "enter_on_poll brackets are the program PSpan name props body, which for every well-nested body returns normally "
+         "and restores the caller's local context (C10 induction); without a local parent nothing is recorded and no "
+         "property closure runs; each in_span poll restores the poller's context. Tied to the code by twins: every "
+         "catalogue function exists as identical plain and #[trace] text; outcome, effect order, error and panic must "
+         "be identical, and the spans recorded with and without a local parent are compared with the model through "
+         "system histories in which the generated code is spelled out as API calls. Partial: syn/quote and Rust's "
+         "ownership rules are outside the model; format strings are compared with hand-expanded expectations.",
+         "DESIGN.md 6/C15"),
  "C18": ("Kernel-checked theorems: every record's duration is the converted finish instant minus the converted start "
          "instant (collection time for open spans), for local-span sets and thread-safe spans; a monotone conversion makes "
          "begin + duration the converted finish, so intervals nest and order in unix time as the instants do. Nesting of "
